@@ -107,7 +107,7 @@ def merge_PrivateDicts(top_dicts, vsindex_dict, var_model, fd_map):
 
     topDict = top_dicts[0]
     region_top_dicts = top_dicts[1:]
-    if hasattr(region_top_dicts[0], "FDArray"):
+    if region_top_dicts and hasattr(region_top_dicts[0], "FDArray"):
         regionFDArrays = [fdTopDict.FDArray for fdTopDict in region_top_dicts]
     else:
         regionFDArrays = [[fdTopDict] for fdTopDict in region_top_dicts]
